@@ -34,6 +34,14 @@ REGRESSION = [
     ("min()", "diagnosed", None),
     ("{x : x in 1..3, {1}}", "diagnosed", None),
     ("{x*2 : x in 1..3}; x", "value", "I:3"),
+    # range bounds that are lazy values: integral ones work, fractional ones are a diagnosed error (never a host TypeError)
+    ("1..(5!/7)", "diagnosed", None), ("(5!/7)..20", "diagnosed", None), ("range(C(5,2)/4, 9)", "diagnosed", None),
+    ("range(1, 3!/4!)", "diagnosed", None), ("1..(3!/2)", "value", "A:[I:1;I:2;I:3]"), ("range(1, 3!, 2)", "value", "A:[I:1;I:3;I:5]"),
+    ("range(0, C(5,2), 3)", "value", "A:[I:0;I:3;I:6;I:9]"), ("size(1..5!)", "value", "I:120"),
+    # medians of values a double cannot tell apart, and beyond the double range
+    ("median({9007199254740993, 9007199254740992, 9007199254740994})", "value", "I:9007199254740993"),
+    ("median({200!, 1, 2})", "value", "I:2"), ("median({10^400, 10^400+2, 10^400+1})", "out", None),
+    ("max({1/3, 0.3333333333333333})", "value", "F:1/3"),
 ]
 
 
@@ -865,6 +873,8 @@ def run(ctx):
             ok, exp = wf and o.get("status") == 1, "a diagnosed error (status 1) returned promptly"
         elif kind == "value":
             ok, exp = wf and o.get("status") == 0 and o.get("value") == want, "the value %s" % want
+        elif want is None:
+            ok, exp = wf and o.get("status") == 0, "a value (status 0)"
         else:
             ok, exp = wf and o.get("status") == 0 and o.get("out") == want, "the display %r" % want
         if not ok:
